@@ -846,8 +846,13 @@ def part_a(run, recipes, forms, label):
                     if key.startswith("eq-implies-signature") or key.startswith("eq-implies-value"):
                         run.violation(key, what, wit(x, y))
                         hit = True
-                if not hit and EQ(a, b) is True:
-                    raise RuntimeError("bulk signature/value difference not reproduced on the pair " + repr(wit(x, y)))
+                if not hit:
+                    if A[x][0] == A[y][0]:
+                        # identical structure, different signature/value status: the harness is not deterministic
+                        raise RuntimeError("signature/value differ for identical reprs " + repr(wit(x, y)))
+                    # different structures declared equal (already reported by the attribute laws) whose
+                    # signature/value is defined for only one of them
+                    run.count(f"{label}_equal_pair_with_one_sided_signature_or_value")
 
     tick(f"{label}: pair laws done")
     run.states += N
@@ -1018,4 +1023,7 @@ def replay(run):
     else:
         raise RuntimeError(f"unknown witness {w!r}")
     run.states = 1
+    run.transitions = max(run.transitions, 1)
+    run.validated = max(run.validated, 1)
+    run.rule = "replay of one recorded witness"
     run.finish()
